@@ -541,6 +541,9 @@ def negotiate_unrestricted(
     non_storage_contexts: list[PresentationContext] = []
     reply_roles: dict[UID, SCP_SCU_RoleSelectionNegotiation] = {}
     storage_uids = _STORAGE_CLASSES.values()
+    # The UIDs known to pynetdicom, looked up by value: the names used for
+    #   some SOP classes differ from their pydicom keywords
+    known_uids = {v for v in vars(SOP_CLASS_MODULE).values() if isinstance(v, UID)}
 
     # Split out private/unknown/storage cx's from everything else
     for cx in rq_contexts:
@@ -548,7 +551,7 @@ def negotiate_unrestricted(
         if (
             ab_syntax.is_private
             or ab_syntax in storage_uids
-            or not hasattr(SOP_CLASS_MODULE, ab_syntax.keyword)
+            or ab_syntax not in known_uids
         ):
             storage_contexts.append(cx)
         else:
